@@ -41,7 +41,7 @@ MANIFEST = {
     "technique": "Lean 4 theorems over executable agent models; models tied by regenerated tables and a differential rig",
     "design_ref": "5/C19",
 }
-MODULES = ["PrimaiteModel.Props.C19", "PrimaiteModel.Props.C19Sched", "PrimaiteModel.Props.C19Run", "PrimaiteModel.Props.C19Params", "PrimaiteModel.Props.C19Sampler", "PrimaiteModel.Props.C19Nodes", "PrimaiteModel.Props.C19More"]
+MODULES = ["PrimaiteModel.Props.C19", "PrimaiteModel.Props.C19Sched", "PrimaiteModel.Props.C19Run", "PrimaiteModel.Props.C19Params", "PrimaiteModel.Props.C19Sampler", "PrimaiteModel.Props.C19Nodes", "PrimaiteModel.Props.C19More", "PrimaiteModel.Props.C19Live"]
 EXE = "drv_c19"
 KINDS = ["periodic", "prob", "probn", "tap1", "tap3", "rand"]
 
